@@ -87,6 +87,7 @@ static DBusConnection *sconn;      /* peer side */
 static DBusConnection *client;
 static DBusWatch *read_watch;      /* client's read watch, NULL once removed */
 static int cleanup;
+static int peer_shut;               /* the peer's writing side was shut down inside a batch (item "x") */
 
 struct call { DBusPendingCall *p; dbus_uint32_t serial; DBusTimeout *to; int registered; int ncount; int has_notify; };
 static struct call calls[MAXCALLS];
@@ -202,6 +203,7 @@ static int setup (void)
 {
   DBusError err; int k; char *addr;
   dbus_error_init (&err);
+  peer_shut = 0;
   sconn = NULL; client = NULL; read_watch = NULL; ncalls = 0; cur_send = -1; cleanup = 0;
   memset (calls, 0, sizeof calls);
   addr = dbus_server_get_address (server);
@@ -297,7 +299,7 @@ static void ev_peer (const char *kind, const char *target, const char *tagstr)
       rs = calls[i].serial;
     }
   else rs = (dbus_uint32_t) strtoul (target + 1, NULL, 10);
-  if (!sconn || !dbus_connection_get_is_connected (sconn)) return;
+  if (!sconn || peer_shut || !dbus_connection_get_is_connected (sconn)) return;
   if (kind[0] == 'r') m = dbus_message_new (DBUS_MESSAGE_TYPE_METHOD_RETURN);
   else if (kind[0] == 'e') { m = dbus_message_new (DBUS_MESSAGE_TYPE_ERROR); dbus_message_set_error_name (m, "org.x.Err"); }
   else { m = dbus_message_new_signal ("/org/x", "org.x.I", "Sig"); }
@@ -311,7 +313,15 @@ static void ev_peer (const char *kind, const char *target, const char *tagstr)
 
 /* ---- block while the peer keeps writing ---- */
 #define MAXBATCH 8
-struct batch { unsigned char *buf; size_t len; };
+struct batch { unsigned char *buf; size_t len; int close_after; };
+#include <sys/socket.h>
+static void batch_write (int fd, struct batch *b)
+{
+  size_t off = 0;
+  if (peer_shut) return;
+  while (off < b->len) { ssize_t w = write (fd, b->buf + off, b->len - off); if (w <= 0) break; off += (size_t) w; }
+  if (b->close_after) { shutdown (fd, SHUT_WR); peer_shut = 1; }
+}
 static struct batch bw[MAXBATCH];
 static int nbw, bw_fd;
 static void *bw_thread (void *arg)
@@ -319,14 +329,8 @@ static void *bw_thread (void *arg)
   int i;
   for (i = 0; i < nbw; i++)
     {
-      size_t off = 0;
       usleep (15000);
-      while (off < bw[i].len)
-        {
-          ssize_t n = write (bw_fd, bw[i].buf + off, bw[i].len - off);
-          if (n <= 0) break;
-          off += (size_t) n;
-        }
+      batch_write (bw_fd, &bw[i]);
     }
   return NULL;
 }
@@ -335,6 +339,8 @@ static void batch_add (struct batch *b, const char *item)
 {
   char kind[8], target[32]; unsigned long tag; dbus_uint32_t rs; DBusMessage *m; char *raw = NULL; int len = 0;
   dbus_uint32_t t32;
+  if (strcmp (item, "x") == 0) { b->close_after = 1; return; }
+  if (b->close_after) return;
   if (sscanf (item, "%7[^:]:%31[^:]:%lu", kind, target, &tag) != 3) return;
   if (target[0] == 'c') { int i = atoi (target + 1); if (i < 0 || i >= ncalls) return; rs = calls[i].serial; }
   else rs = (dbus_uint32_t) strtoul (target + 1, NULL, 10);
@@ -360,11 +366,11 @@ static void ev_block_with (int i, char *spec)
 {
   pthread_t th; char *bs, *save1 = NULL; int started = 0, k;
   nbw = 0;
-  if (sconn && dbus_connection_get_is_connected (sconn) && dbus_connection_get_unix_fd (sconn, &bw_fd))
+  if (sconn && !peer_shut && dbus_connection_get_is_connected (sconn) && dbus_connection_get_unix_fd (sconn, &bw_fd))
     for (bs = strtok_r (spec, "/", &save1); bs && nbw < MAXBATCH; bs = strtok_r (NULL, "/", &save1))
       {
         char *it, *save2 = NULL;
-        bw[nbw].buf = NULL; bw[nbw].len = 0;
+        bw[nbw].buf = NULL; bw[nbw].len = 0; bw[nbw].close_after = 0;
         for (it = strtok_r (bs, "+", &save2); it; it = strtok_r (NULL, "+", &save2)) batch_add (&bw[nbw], it);
         nbw++;
       }
@@ -471,9 +477,8 @@ int poll (struct pollfd *fds, nfds_t n, int timeout)
       if (bt_ai < bt_narr)
         {
           struct batch *b = &bt_arr[bt_ai++];
-          size_t off = 0;
-          if (b->len == 0) { if (timeout < 0) { emit ("!hang"); fflush (stdout); puts (out); _exit (97); } return 0; }
-          while (off < b->len) { ssize_t w = write (bt_pfd, b->buf + off, b->len - off); if (w <= 0) break; off += (size_t) w; }
+          if ((b->len == 0 && !b->close_after) || peer_shut) { if (timeout < 0) { emit ("!hang"); fflush (stdout); puts (out); _exit (97); } return 0; }
+          batch_write (bt_pfd, b);
           return (int) syscall (SYS_poll, fds, n, 1000);
         }
       if (timeout < 0) { emit ("!hang"); puts (out); fflush (stdout); _exit (97); }
@@ -491,12 +496,12 @@ static void ev_block_timed (int i, char *clocks, char *arrivals)
       long a = 0, b = 0; sscanf (c, "%ld.%ld", &a, &b);
       bt_clk[bt_nclk].tv_sec = a; bt_clk[bt_nclk].tv_usec = b; bt_nclk++;
     }
-  if (strcmp (arrivals, "x") != 0 && sconn && dbus_connection_get_is_connected (sconn) && dbus_connection_get_unix_fd (sconn, &bt_pfd))
+  if (strcmp (arrivals, "x") != 0 && sconn && !peer_shut && dbus_connection_get_is_connected (sconn) && dbus_connection_get_unix_fd (sconn, &bt_pfd))
     {
       char *bs, *save1 = NULL;
       for (bs = strtok_r (arrivals, "/", &save1); bs && bt_narr < MAXBATCH; bs = strtok_r (NULL, "/", &save1))
         {
-          bt_arr[bt_narr].buf = NULL; bt_arr[bt_narr].len = 0;
+          bt_arr[bt_narr].buf = NULL; bt_arr[bt_narr].len = 0; bt_arr[bt_narr].close_after = 0;
           if (strcmp (bs, "-") != 0)
             {
               char *it, *save2 = NULL;
@@ -513,8 +518,7 @@ static void ev_block_timed (int i, char *clocks, char *arrivals)
       bt_active = 0;
     }
   /* whatever the peer had not written yet is written now */
-  for (k = bt_ai; k < bt_narr; k++)
-    { size_t off = 0; while (off < bt_arr[k].len) { ssize_t w = write (bt_pfd, bt_arr[k].buf + off, bt_arr[k].len - off); if (w <= 0) break; off += (size_t) w; } }
+  for (k = bt_ai; k < bt_narr; k++) batch_write (bt_pfd, &bt_arr[k]);
   for (k = 0; k < bt_narr; k++) free (bt_arr[k].buf);
   bt_narr = 0;
 }
@@ -523,11 +527,11 @@ static void ev_two_threads (int a, int b, char *spec)
 {
   struct batch wr; char *it, *save = NULL; size_t off = 0; struct timespec ts; int okA, okB;
   if (a >= ncalls || b >= ncalls || a == b) { emit ("TT-"); return; }
-  if (!sconn || !dbus_connection_get_is_connected (sconn) || !dbus_connection_get_unix_fd (sconn, &bt_pfd)
+  if (!sconn || peer_shut || !dbus_connection_get_is_connected (sconn) || !dbus_connection_get_unix_fd (sconn, &bt_pfd)
       || !dbus_connection_get_unix_fd (client, &bt_cfd)) { emit ("TT-"); return; }
-  wr.buf = NULL; wr.len = 0;
+  wr.buf = NULL; wr.len = 0; wr.close_after = 0;
   for (it = strtok_r (spec, "+", &save); it; it = strtok_r (NULL, "+", &save)) batch_add (&wr, it);
-  tt_wake.buf = NULL; tt_wake.len = 0; batch_add (&tt_wake, "s:#0:999999");
+  tt_wake.buf = NULL; tt_wake.len = 0; tt_wake.close_after = 0; batch_add (&tt_wake, "s:#0:999999");
   tt_ca = a; tt_cb = b; tt_a_polled = tt_b_posted = 0; tt_bufA[0] = tt_bufB[0] = 0;
   sem_init (&tt_a_inpoll, 0, 0); sem_init (&tt_a_go, 0, 0); sem_init (&tt_b_waiting, 0, 0);
   tt_active = 1;
@@ -580,7 +584,7 @@ static void run_event (char *ev)
           }
         break;
       }
-    case 'X': drain_peer (); if (sconn && dbus_connection_get_is_connected (sconn)) { dbus_connection_close (sconn); } break;
+    case 'X': if (!peer_shut) drain_peer (); if (sconn && dbus_connection_get_is_connected (sconn)) { dbus_connection_close (sconn); } break;
     case 'L': if (dbus_connection_get_is_connected (client)) dbus_connection_close (client); break;
     default: emit ("?"); break;
     }
